@@ -691,7 +691,12 @@ func (r *Runner) injectStop(where string) {
 			r.Agent.Signal(syscall.SIGTERM)
 			c.Log("CTL", "", "signal.returned")
 		}()
-		r.waitPass()
+		if !r.waitPass() {
+			// the agent was signalled and 20 s later nothing has been stopped
+			r.inconcl.Store("")
+			r.stopDropped.Store(true)
+			c.Log("CTL", "", "stop.dropped")
+		}
 		c.Log("CTL", "", "stop.accepted")
 	}
 	go r.drain()
